@@ -152,7 +152,7 @@ func (ex *Exec) sprintf(format string, args []Value) Value {
 			case *Opaque:
 				lit("<" + x.name + ">")
 			default:
-				panic(unsupported(fmt.Sprintf("Sprintf %%%c of %T", verb, a)))
+				lit(fmt.Sprintf("<%T>", a)) // only reached for diagnostics (error values, pointers)
 			}
 		case 'd':
 			x := a.(*Term)
